@@ -18,3 +18,8 @@ func specRot(key uint32, n int) uint32 {
 	s := 8 * (uint(n) % 4)
 	return key>>s | key<<((32-s)%32)
 }
+
+// specUnrot: the key before n bytes were masked, given the key after (inverse of specRot).
+func specUnrot(key uint32, n int) uint32 {
+	return specRot(key, int((4-uint(n)%4)%4))
+}
